@@ -61,4 +61,5 @@ def jobs(tier, seed):
     for j in GC.pair_jobs(tier, seed, n_pairs_quick=2):
         j["family"] = "jolt_iterations:" + j["family"]
         J.append(j)
+    J += GC.branch_scene_jobs(tier, {"prim": "prim", "generic": "nesterov"})
     return J
